@@ -24,8 +24,25 @@ class C14Engine:
 			pass
 
 	def setup(self):
-		for e in self.subs.values():
-			e.setup()
+		self._notes = []
+		for name, e in list(self.subs.items()):
+			try:
+				e.setup()
+			except RuntimeError as ex:
+				if name != "trxcon":
+					raise
+				# trx_if.c does not build against the shim any more: say so, go on without it
+				self._notes.append("trxcon sub-engine disabled: %s" % str(ex)[-300:])
+				print("NOTE: trxcon sub-engine disabled for this run: %s" % str(ex)[-600:])
+				del self.subs["trxcon"]
+				self.weights = [w for w in self.weights if w[0] != "trxcon"]
+
+	def notes(self):
+		out = list(getattr(self, "_notes", []))
+		um = self.subs.get("um")
+		if um is not None and hasattr(um, "notes"):
+			out += um.notes()
+		return out
 
 	def pick(self, seed):
 		r = rng_for(seed, "c14-engine")
